@@ -660,14 +660,18 @@ class ClientDriver(ReorgDriver):
             def refreshed():
                 ls = self.last_sync_refresh
                 return ls is not None and ls[0] == d.version and ls[1] >= t0
-            r = w.run(lambda: refreshed() and w.caught_up(), 600.0)
+            def reported():
+                # the block processor has handed its current height to Notifications (after an intermediate
+                # flush it may still be waiting for a slow or failing daemon call made before the tail began)
+                return self.notif.last_block == d.height
+            r = w.run(lambda: refreshed() and w.caught_up() and reported(), 600.0)
             if r != 'pred':
                 return False
             # let deferred notifications and network deliveries drain: two more refresh periods
             w.run(None, 16.0)
             if w.server is None:
                 continue
-            if refreshed() and w.caught_up() and self.pending_bg <= 0 and \
+            if refreshed() and w.caught_up() and reported() and self.pending_bg <= 0 and \
                     not any(c.connected and c.pending() for c in self.cl):
                 return True
         return False
@@ -1230,23 +1234,28 @@ class StaleFamily(SubsFamily):
                 ops.append(q)
             rng.shuffle(ops)
             plan.extend(ops)
-            if rng.random() < 0.2:
+            if rng.random() < 0.3:
                 # motif: the same script-hash request over and over (several clients) while a block that touches
                 # the script is indexed and notified and the reads behind those requests are slow: requests that
                 # arrive after the notification overlap reads that began before the flush
-                k['stall_boost'] = ('read_history', rng.choice([0.5, 0.8]), 'RPCSession',
-                                    rng.choice(['release', 'timed']))
+                # a history read passes a seam per transaction: a low probability per seam gives reads that are
+                # slow by seconds (one or two stalls), not by minutes
+                k['stall_boost'] = ('read_history', rng.choice([0.03, 0.08, 0.2]), rng.choice(['RPCSession', '', '']),
+                                    rng.choice(['release', 'timed', 'timed']))
                 k['stall_p'] = 0.0
+                k['stall_max'] = rng.choice([3.0, 6.0, 12.0])
+                k['boost_locked'] = True                                # later motifs of this run keep this choice
                 sx = rng.randrange(8)
                 tq = round(rng.uniform(0.5, 3.0), 2)
                 for c in range(nclients):
                     plan.append(dict(op='c_query', c=c, m=rng.choice(['get_history', 'get_history', 'get_balance']),
                                      s=sx, h=0, pos=0, merkle=False, at=round(max(0.01, tq - rng.uniform(0, 1.5)), 2),
-                                     rep=rng.choice([10, 20, 40]), every=rng.choice([0.1, 0.3, 0.7])))
-                n = rng.randint(1, 2)
-                plan.append(dict(op='mine', n=n, ntx=[rng.randint(3, 9) for _ in range(n)], at=tq,
-                                 seed=rng.getrandbits(32), confirm=rng.choice([0.0, 1.0])))
-                plan.append(dict(op='wait', dt=rng.choice([10.0, 25.0])))
+                                     rep=rng.choice([60, 100, 150]), every=rng.choice([0.2, 0.3, 0.5])))
+                for j in range(rng.randint(1, 4)):
+                    # blocks at intervals while the storms go on: each is a chance for a read to straddle its flush
+                    plan.append(dict(op='mine', n=1, ntx=[rng.randint(4, 12)], at=round(tq + j * rng.uniform(6.0, 11.0), 2),
+                                     seed=rng.getrandbits(32), confirm=rng.choice([0.0, 1.0])))
+                plan.append(dict(op='wait', dt=rng.choice([25.0, 45.0])))
                 plan.append(dict(op='settle'))
             if rng.random() < 0.2:
                 # motif: answers are cached, then every client leaves; the chain moves while the server has no
@@ -1267,7 +1276,7 @@ class StaleFamily(SubsFamily):
                 # be parked on a slow disk, and a fork replacing those blocks right afterwards
                 n = rng.randint(1, 2)
                 tq = round(rng.uniform(5.5, 11.0), 2)
-                if rng.random() < 0.6:
+                if rng.random() < 0.6 and not k.get('boost_locked'):
                     k['stall_boost'] = (rng.choice(['fs_tx_hashes_at_blockheight', 'fs_tx_hashes_at_blockheight',
                                                     'read_headers']), rng.choice([0.4, 0.8]),
                                         rng.choice(['RPCSession', 'RPCSession', 'Session']),
